@@ -34,6 +34,7 @@ Definition F_BUSY := 5.   (* iwtp_threads_busy_num *)
 Definition RC_OK := 0.
 Definition RC_INVALID_STATE := 1.
 Definition RC_OVERFLOW := 2.
+Definition RC_ASSERTION := 3.  (* IW_ERROR_ASSERTION: iwstw_shutdown called from the worker's own thread *)
 
 Definition memb (x : nat) (l : list nat) : bool := existsb (Nat.eqb x) l.
 Definition remove1 (x : nat) (l : list nat) : list nat := filter (fun y => negb (Nat.eqb y x)) l.
